@@ -395,6 +395,21 @@ def must_constraint(rep, res, entry, origin, label, probs=None, rule="R-FLOW", l
     direct = [ev for ev in evs if not any(o.startswith("sol#") for o in R.closure_deps(res, ev.d["val"]))]
     if direct:
         evs = direct
+    # the side on which the bound stands: a lower bound is the smaller side of the inequality (x ≥ lb / lb ≤ x), an upper bound the
+    # larger one — a constraint that merely mentions the other bound (e.g. through a mask computed from both) is not its constraint
+    def side_ok(ev):
+        c = ev.d["val"]
+        op, l_, r_ = c.tag("op"), c.tag("lhs"), c.tag("rhs")
+        if op not in ("GtE", "LtE", "Gt", "Lt") or l_ is None or r_ is None:
+            return True
+        small, large = (r_, l_) if op in ("GtE", "Gt") else (l_, r_)
+        bound_side = small if "lower" in label else (large if "upper" in label else None)
+        if bound_side is None:
+            return True
+        return origin in R.closure_deps(res, bound_side) and not bound_side.flat().refs & R.leaf_kinds(res, c)[1]
+    sided = [ev for ev in evs if side_ok(ev)]
+    if sided:
+        evs = sided
     import ast as _ast
 
     def skips_only_zero(g, ev):
@@ -472,6 +487,25 @@ def must_constraint(rep, res, entry, origin, label, probs=None, rule="R-FLOW", l
               msg=(f"the only constraint carrying `{origin}` is created under the undecided guard(s) "
                    f"{[g[0] for g in undecided(ev)]}: for inputs where the guard fails the bound is not enforced "
                    f"(a sign attribute enforces only x ≥ 0)") if not ok else "added unconditionally for this configuration")
+
+
+def mixed_upper_bounds(rep, res, entry):
+    """an upper bound with finite AND infinite entries: either the call rejects it (the bound validation), or the finite entries are
+    enforced by a constraint; accepting it while the only upper-bound constraint requires ALL entries to be finite drops the bound"""
+    r = raises(res)
+    if r is True:
+        rep.holds("R-DISPATCH", "mixed finite / infinite upper bounds are rejected or enforced", where=res.fn.loc(),
+                  construct="ub with finite and infinite entries", entry=entry, config=res.config, msg="rejected (raises)")
+        return
+    evs = [ev for ev in res.events("cvx_constraint") if "ub" in R.closure_deps(res, ev.d["val"])
+           and not any(o.startswith("sol#") for o in R.closure_deps(res, ev.d["val"]))]
+    rets = [x for x in res.events("return") if len(x.path) == 1]
+    st = None if evs else (False if (r is False or rets) else None)
+    rep.check("R-DISPATCH", "mixed finite / infinite upper bounds are rejected or enforced", st, where=res.fn.loc(),
+              construct="ub with finite and infinite entries", entry=entry, config=res.config,
+              msg="an upper bound that is finite for some sources and infinite for others is accepted, but no constraint carries it (the "
+                  "upper-bound constraint is only added when ALL entries are finite): the finite bounds are silently dropped and the "
+                  "returned intensities exceed them")
 
 
 def every_row_solved(rep, res, entry):
@@ -563,6 +597,9 @@ def wrapper_returns_solution(rep, res, entry, callee_names, labels):
             must = set(f.tags.get("must_data", f.data))
             ok = bool(want_any & set(f.data)) and want_must <= must and (bool(want_must) or f.tags.get("must_data") is None
                                                                        or f.tags.get("must_data") == fi.tags.get("must_data"))
+            if not ok and any(o.split("|")[0].startswith("self._") for o in f.data):
+                ok = None       # on some path the component is read back from a private field the specification does not declare (a memo of
+                                # earlier results): whether that memo can go stale is the cache rule's business (R-EFFECT), not decided here
             rep.check("R-TYPESTATE", f"returned {lab} is the fitting routine's {lab} on every path", ok, where=r.loc,
                       construct=f"{lab} in `{r.text()[:60]}`", entry=entry, config=res.config,
                       msg=f"on some path the returned {lab} no longer depends on the solution computed by {calls[-1].d['callee'].name} (it is "
